@@ -38,6 +38,12 @@ def configs(tier):
         # a grid whose spacings (2.5 m, 7.5 m) make the padded offset px*dx fractional while tower coordinates are whole metres
         for k, h in enumerate((8.9, 7.5, None, 0.0)):
             yield {"prof": sl.PROFILE_SETS[k % 4], "grid": [8, 6], "dom": [20.0, 45.0], "halo": h, "modes": "full", "prec": "double"}
+        # wind exactly along a grid axis (one component identically zero; MOSTM: Ky identically zero)
+        for p_, h in itertools.product(sl.AXIS_SETS, (0.0, 13.0, None)):
+            yield {"prof": p_, "grid": sl.GRIDS[0][0], "dom": sl.GRIDS[0][1], "halo": h, "modes": "full", "prec": "double"}
+        # degenerate shapes: a single row / a single column of cells
+        for k, (g, h) in enumerate(itertools.product(sl.DEGENERATE_GRIDS, (0.0, 13.0, None))):
+            yield {"prof": sl.PROFILE_SETS[(k + 1) % 4], "grid": g[0], "dom": g[1], "halo": h, "modes": [64, 64], "prec": "double"}
         # odd grid sizes (odd padded sizes, clamped mode counts)
         for k, (g, h) in enumerate(itertools.product(sl.ODD_GRIDS, (0.0, None, 13.0, 20.0))):
             yield {"prof": sl.PROFILE_SETS[k % 4], "grid": g[0], "dom": g[1], "halo": h, "modes": [64, 64], "prec": "double"}
@@ -105,6 +111,7 @@ def case_reciprocity(case):
     nexec = 2 * ncell
     for fname, q in sl.fields(rng, ny, nx).items():
         _, cd, fd = S(q, z, prof, dom, levels, **kw)
+        cd, fd = np.asarray(cd).reshape(2, ny, nx), np.asarray(fd).reshape(2, ny, nx)
         nexec += 1
         for m, (j, i) in enumerate(itertools.product(range(ny), range(nx))):
             for l in range(2):
